@@ -394,6 +394,61 @@ func c18Run() ([]c18Rec, error) {
 			return nil, err
 		}
 	}
+	// G. caveats and facts that use "/" as an ordinary map key next to the reserved DAG-JSON shapes (which are refused):
+	// a path-keyed map, a single "/" key with a non-string value, a "bytes"-keyed inner map with a non-string value
+	slash := func(build func(ma datamodel.MapAssembler)) datamodel.Node {
+		nb := basicnode.Prototype.Map.NewBuilder()
+		ma, _ := nb.BeginMap(4)
+		build(ma)
+		ma.Finish()
+		return nb.Build()
+	}
+	slashCavs := []datamodel.Node{
+		slash(func(ma datamodel.MapAssembler) {
+			ma.AssembleKey().AssignString("routes")
+			ma.AssembleValue().AssignNode(slash(func(m2 datamodel.MapAssembler) {
+				m2.AssembleKey().AssignString("/")
+				m2.AssembleValue().AssignString("index.html")
+				m2.AssembleKey().AssignString("/about")
+				m2.AssembleValue().AssignString("about.html")
+			}))
+		}),
+		slash(func(ma datamodel.MapAssembler) {
+			ma.AssembleKey().AssignString("/")
+			ma.AssembleValue().AssignInt(5)
+		}),
+		slash(func(ma datamodel.MapAssembler) {
+			ma.AssembleKey().AssignString("x")
+			ma.AssembleValue().AssignNode(slash(func(m2 datamodel.MapAssembler) {
+				m2.AssembleKey().AssignString("/")
+				m2.AssembleValue().AssignNode(slash(func(m3 datamodel.MapAssembler) {
+					m3.AssembleKey().AssignString("bytes")
+					m3.AssembleValue().AssignInt(7)
+				}))
+			}))
+		}),
+		slash(func(ma datamodel.MapAssembler) {
+			ma.AssembleKey().AssignString("/")
+			ma.AssembleValue().AssignNode(slash(func(m2 datamodel.MapAssembler) {
+				m2.AssembleKey().AssignString("bytes")
+				m2.AssembleValue().AssignString("AQID")
+				m2.AssembleKey().AssignString("more")
+				m2.AssembleValue().AssignBool(true)
+			}))
+		}),
+	}
+	for k, cv := range slashCavs {
+		d, err := delegation.Delegate(keys["ed1"], keys["ed0"].DID(), []ucan.Capability[ucan.CaveatBuilder]{
+			ucan.NewCapability[ucan.CaveatBuilder]("site/publish", keys["ed1"].DID().String(), nodeNb{cv})},
+			delegation.WithExpiration(1900000000), delegation.WithNonce(fmt.Sprintf("slash-%d", k)),
+			delegation.WithFacts([]ucan.FactBuilder{factB{map[string]datamodel.Node{"/": basicnode.NewInt(int64(k)), "/x": cv}}}))
+		if err != nil {
+			return nil, fmt.Errorf("program tok-slashkey-%d: %v", k, err)
+		}
+		if err := tokRec(fmt.Sprintf("tok-slashkey-%d", k), "ed1", d); err != nil {
+			return nil, err
+		}
+	}
 	return recs, nil
 }
 
@@ -542,6 +597,14 @@ func init() {
 					alg, _ := signature.CodeName(d.Signature().Code())
 					if pl, err := payloadString(d, alg); err != nil || pl != g.Payload {
 						bad(how, "signing payload rebuilt from the recorded token differs from the recorded payload")
+					}
+					// load and save again: the stored artefact is reproduced byte for byte
+					if how == "Extract(archive)" {
+						if ab2, err := io.ReadAll(d.Archive()); err != nil || !bytes.Equal(ab2, ab) {
+							bad(how, fmt.Sprintf("a stored archive that is loaded and saved again is no longer the same bytes (%d stored, %d saved)", len(ab), len(ab2)))
+						}
+					} else if fs2, err := delegation.Format(d); err != nil || fs2 != g.Format {
+						bad(how, "a stored delegation string that is parsed and formatted again is no longer the same string")
 					}
 				}
 				ut, err := utokenCoqFromBytes(root)
